@@ -842,10 +842,36 @@ func workerMain(arg string) {
 				if (cl != "" && perClass[cl] < 2) || c+ec <= 2 {
 					w.replayHistory(h2)
 					validated++
-					c2, _ := w.check()
+					c2, what2 := w.check()
 					if w.key() != k || c2 != cl {
-						fmt.Fprintf(os.Stderr, "HARNESS-ERROR: restore and full replay disagree for %v:\n restore: %s %s\n replay:  %s %s\n", h2, k, cl, w.key(), c2)
-						os.Exit(2)
+						// Either the restore shortcut is wrong (harness failure) or the implementation itself is not
+						// deterministic on this history (Go randomises map iteration, with a strong bias: of two keys the
+						// first inserted comes first 7 times out of 8).  Replay it 48 more times from the empty world: if
+						// the replays differ among themselves it is the implementation; an outcome that violates in some
+						// replays is a violation (the property is universal), reported as intermittent.
+						keys := map[string]bool{w.key(): true}
+						bad, badClass, badWhat := 0, c2, what2
+						if c2 != "" {
+							bad++
+						}
+						const more = 48
+						for i := 0; i < more; i++ {
+							w.replayHistory(h2)
+							keys[w.key()] = true
+							if c3, w3 := w.check(); c3 != "" {
+								bad++
+								badClass, badWhat = c3, w3
+							}
+						}
+						if len(keys) < 2 {
+							fmt.Fprintf(os.Stderr, "HARNESS-ERROR: restore and full replay disagree for %v:\n restore: %s %s\n replay:  %s %s\n", h2, k, cl, w.key(), c2)
+							os.Exit(2)
+						}
+						res.Notes = append(res.Notes, fmt.Sprintf("implementation is not deterministic on %v: %d distinct outcomes in %d replays, %d violating", h2, len(keys), more+1, bad))
+						if bad > 0 {
+							cl, what = badClass, badWhat+fmt.Sprintf(" (intermittent: %d of %d replays of this history violate — the outcome depends on map iteration order)", bad, more+1)
+						}
+						w.restore(ns)
 					}
 				}
 				if cl != "" {
